@@ -3,10 +3,10 @@ package main
 import (
 	"bytes"
 	"encoding/xml"
-	"os"
-	"path/filepath"
 	"fmt"
 	"io"
+	"os"
+	"path/filepath"
 	"reflect"
 	"strings"
 
